@@ -25,6 +25,9 @@ type Reg struct {
 	Remove bool   `json:"remove,omitempty"`
 	RmType string `json:"rm_type,omitempty"`
 	RmKey  string `json:"rm_key,omitempty"`
+	// RmInt > 0: RemoveKeyed(RmType, RmInt) - an int key. No registration can have one (names are
+	// strings), so the step removes nothing; godi numbers group members with such ints internally
+	RmInt int `json:"rm_int,omitempty"`
 	// Tail steps keep their position at the end of the spec (Remove and re-Add steps are
 	// order-sensitive by nature; C06 permutes only the prefix).
 	Tail bool `json:"tail,omitempty"`
@@ -55,6 +58,9 @@ func lifeName(l godi.Lifetime) string {
 func (r Reg) String() string {
 	var sb strings.Builder
 	if r.Remove {
+		if r.RmInt > 0 {
+			return fmt.Sprintf("RemoveKeyed(%s,int(%d))", r.RmType, r.RmInt)
+		}
 		if r.RmKey != "" {
 			return fmt.Sprintf("RemoveKeyed(%s,%q)", r.RmType, r.RmKey)
 		}
@@ -160,7 +166,9 @@ func (s *Spec) Canon() string {
 // AddTo applies registration i to a collection.
 func (r Reg) AddTo(c godi.Collection) error {
 	if r.Remove {
-		if r.RmKey != "" {
+		if r.RmInt > 0 {
+			c.RemoveKeyed(pool.T(r.RmType), r.RmInt)
+		} else if r.RmKey != "" {
 			c.RemoveKeyed(pool.T(r.RmType), r.RmKey)
 		} else {
 			c.Remove(pool.T(r.RmType))
